@@ -1,4 +1,5 @@
 import ScVerif.C09.Subs
+import ScVerif.C09.Include
 /-! Lemmas about the PullID stage, several subscribers on one bus and the filtered Value pipeline
 (helpers; the property theorems are in `PropsSubs.lean`). -/
 namespace ScVerif.C09
@@ -104,14 +105,14 @@ theorem WFHist_mem_new {s : View ι μ} {ds : List (Change ι μ)} (hw : WFHist 
 /-- While seeds remain, Pull's goroutine has taken nothing from the merge machine. -/
 def Phase (c : SCfg ι μ) : Prop := c.seeds ≠ [] → c.p.delivered = [] ∧ c.p.inHand = none
 
-theorem pstep_recv_delivered (c : PCfg ι μ) (e : Change ι μ) :
-    (pstep some c (.recv e)).delivered = c.delivered := rfl
+theorem pstep_recv_delivered (T : Change ι μ → Option (Change ι μ)) (c : PCfg ι μ) (e : Change ι μ) :
+    (pstep T c (.recv e)).delivered = c.delivered := rfl
 
-theorem pstep_take_delivered (c : PCfg ι μ) : (pstep some c .take).delivered = c.delivered := by
+theorem pstep_take_delivered (T : Change ι μ → Option (Change ι μ)) (c : PCfg ι μ) : (pstep T c .take).delivered = c.delivered := by
   simp only [pstep]
   cases c.inHand <;> cases emit c.st <;> rfl
 
-theorem Phase_sstep {c : SCfg ι μ} (h : Phase c) (m : PMove (Change ι μ)) : Phase (sstep c m) := by
+theorem Phase_sstep (T : Change ι μ → Option (Change ι μ)) {c : SCfg ι μ} (h : Phase c) (m : PMove (Change ι μ)) : Phase (sstep T c m) := by
   rcases c with ⟨seeds, seeded, p⟩
   cases m with
   | recv e => exact h
@@ -126,32 +127,32 @@ theorem Phase_sstep {c : SCfg ι μ} (h : Phase c) (m : PMove (Change ι μ)) : 
       intro _
       exact h (by simp)
 
-theorem sstep_received (c : SCfg ι μ) (m : PMove (Change ι μ)) :
-    (sstep c m).p.received = c.p.received ++ pinputs [m] := by
+theorem sstep_received (T : Change ι μ → Option (Change ι μ)) (c : SCfg ι μ) (m : PMove (Change ι μ)) :
+    (sstep T c m).p.received = c.p.received ++ pinputs [m] := by
   rcases c with ⟨seeds, seeded, p⟩
   cases m with
   | recv e => simp [sstep, pstep, pinputs]
   | take =>
     cases seeds with
-    | nil => simpa [sstep] using pstep_received some p .take
+    | nil => simpa [sstep] using pstep_received T p .take
     | cons s rest => simp [sstep, pinputs]
   | deliver =>
     cases seeds with
-    | nil => simpa [sstep] using pstep_received some p .deliver
+    | nil => simpa [sstep] using pstep_received T p .deliver
     | cons s rest => simp [sstep, pinputs]
 
 /-- `recv` and `take` hand nothing on. -/
-theorem sstep_out_recv (c : SCfg ι μ) (e : Change ι μ) : (sstep c (.recv e)).out = c.out := rfl
+theorem sstep_out_recv (T : Change ι μ → Option (Change ι μ)) (c : SCfg ι μ) (e : Change ι μ) : (sstep T c (.recv e)).out = c.out := rfl
 
-theorem sstep_out_take (c : SCfg ι μ) : (sstep c .take).out = c.out := by
+theorem sstep_out_take (T : Change ι μ → Option (Change ι μ)) (c : SCfg ι μ) : (sstep T c .take).out = c.out := by
   rcases c with ⟨seeds, seeded, p⟩
   cases seeds with
   | nil => simp [sstep, SCfg.out, pstep_take_delivered]
   | cons s rest => rfl
 
 /-- Handing on the offered change appends exactly it to what was handed on. -/
-theorem sstep_out_deliver {c : SCfg ι μ} (hph : Phase c) {d : Change ι μ} (ho : c.offer = some d) :
-    (sstep c .deliver).out = c.out ++ [d] := by
+theorem sstep_out_deliver (T : Change ι μ → Option (Change ι μ)) {c : SCfg ι μ} (hph : Phase c) {d : Change ι μ} (ho : c.offer = some d) :
+    (sstep T c .deliver).out = c.out ++ [d] := by
   rcases c with ⟨seeds, seeded, p⟩
   cases seeds with
   | nil =>
@@ -164,7 +165,7 @@ theorem sstep_out_deliver {c : SCfg ι μ} (hph : Phase c) {d : Change ι μ} (h
     simp only at this
     simp [sstep, SCfg.out, this]
 
-theorem sstep_out_deliver_none {c : SCfg ι μ} (ho : c.offer = none) : sstep c .deliver = c := by
+theorem sstep_out_deliver_none (T : Change ι μ → Option (Change ι μ)) {c : SCfg ι μ} (ho : c.offer = none) : sstep T c .deliver = c := by
   rcases c with ⟨seeds, seeded, p⟩
   cases seeds with
   | nil =>
@@ -173,18 +174,18 @@ theorem sstep_out_deliver_none {c : SCfg ι μ} (ho : c.offer = none) : sstep c 
   | cons s rest => simp [SCfg.offer] at ho
 
 /-- Invariant of Pull's goroutine subscribed at view `s0` with seed list `sd`. -/
-structure SInv (s0 : View ι μ) (sd : List (Change ι μ)) (c : SCfg ι μ) : Prop where
+structure SInv (T : Change ι μ → Option (Change ι μ)) (s0 : View ι μ) (sd : List (Change ι μ)) (c : SCfg ι μ) : Prop where
   split : c.seeded ++ c.seeds = sd
   phase : Phase c
-  pinv : PInv some s0 c.p
+  pinv : PInv T s0 c.p
 
-theorem SInv_init (s0 : View ι μ) (sd : List (Change ι μ)) : SInv s0 sd (SCfg.init sd) :=
-  ⟨by simp [SCfg.init], fun _ => ⟨rfl, rfl⟩, PInv_init some s0⟩
+theorem SInv_init (T : Change ι μ → Option (Change ι μ)) (s0 : View ι μ) (sd : List (Change ι μ)) : SInv T s0 sd (SCfg.init sd) :=
+  ⟨by simp [SCfg.init], fun _ => ⟨rfl, rfl⟩, PInv_init T s0⟩
 
-theorem SInv_step {s0 : View ι μ} {sd : List (Change ι μ)} {c : SCfg ι μ} (h : SInv s0 sd c)
+theorem SInv_step {T : Change ι μ → Option (Change ι μ)} {s0 : View ι μ} {sd : List (Change ι μ)} {c : SCfg ι μ} (h : SInv T s0 sd c)
     (m : PMove (Change ι μ)) (hw : ∀ e, m = .recv e → WFChange (fold c.p.received s0) e) :
-    SInv s0 sd (sstep c m) := by
-  refine ⟨?_, Phase_sstep h.phase m, ?_⟩
+    SInv T s0 sd (sstep T c m) := by
+  refine ⟨?_, Phase_sstep T h.phase m, ?_⟩
   · have hs := h.split
     rcases c with ⟨seeds, seeded, p⟩
     cases m with
@@ -209,9 +210,10 @@ theorem SInv_step {s0 : View ι μ} {sd : List (Change ι μ)} {c : SCfg ι μ} 
 
 /-- What was handed on, the seeds still to come, the event in hand and the pending changes are the seed
 list followed by the pipeline's own (delivered, in hand, pending). -/
-theorem SInv.total {s0 : View ι μ} {sd : List (Change ι μ)} {c : SCfg ι μ} (h : SInv s0 sd c) :
-    c.out ++ c.seeds ++ c.p.inHand.toList ++ c.p.st.pending
-      = sd ++ (c.p.delivered ++ c.p.inHand.toList ++ c.p.st.pending) := by
+theorem SInv.total {T : Change ι μ → Option (Change ι μ)} {s0 : View ι μ} {sd : List (Change ι μ)} {c : SCfg ι μ} (h : SInv T s0 sd c)
+    (X : List (Change ι μ)) :
+    c.out ++ c.seeds ++ c.p.inHand.toList ++ X
+      = sd ++ (c.p.delivered ++ c.p.inHand.toList ++ X) := by
   have hs := h.split
   have hph := h.phase
   rcases c with ⟨seeds, seeded, p⟩
@@ -236,17 +238,17 @@ structure QInv (i : ι) (c : QCfg ι μ) : Prop where
 theorem QInv_init (i : ι) (sd : List (Change ι μ)) : QInv i (QCfg.init sd : QCfg ι μ) :=
   ⟨by simp [QCfg.init, SCfg.init, SCfg.out, PCfg.init, pullIdScan], fun _ => ⟨rfl, rfl⟩⟩
 
-theorem QInv_step {i : ι} {c : QCfg ι μ} (h : QInv i c) (m : QMove (Change ι μ)) : QInv i (qstep i c m) := by
+theorem QInv_step (T : Change ι μ → Option (Change ι μ)) {i : ι} {c : QCfg ι μ} (h : QInv i c) (m : QMove (Change ι μ)) : QInv i (qstep T i c m) := by
   obtain ⟨hs, hph⟩ := h
   cases m with
-  | recv e => exact ⟨by simpa [qstep, sstep_out_recv] using hs, Phase_sstep hph _⟩
+  | recv e => exact ⟨by simpa [qstep, sstep_out_recv] using hs, Phase_sstep T hph _⟩
   | take =>
     simp only [qstep]
     cases he : c.ended with
     | true => simp only [if_true]; exact ⟨by rw [he] at hs; simpa [he] using hs, hph⟩
     | false =>
       simp only [Bool.false_eq_true, if_false]
-      exact ⟨by rw [he] at hs; simpa [sstep_out_take, he] using hs, Phase_sstep hph _⟩
+      exact ⟨by rw [he] at hs; simpa [sstep_out_take, he] using hs, Phase_sstep T hph _⟩
   | hand =>
     simp only [qstep]
     cases h2 : c.hand2 with
@@ -259,8 +261,8 @@ theorem QInv_step {i : ι} {c : QCfg ι μ} (h : QInv i c) (m : QMove (Change ι
         | none => exact ⟨hs, hph⟩
         | some d =>
           simp only
-          refine ⟨?_, Phase_sstep hph _⟩
-          simp only [sstep_out_deliver hph hh]
+          refine ⟨?_, Phase_sstep T hph _⟩
+          simp only [sstep_out_deliver T hph hh]
           rw [h2, he] at hs
           simp only [Option.toList_none, List.append_nil] at hs
           rw [pullIdScan_snoc i _ d (by rw [hs]), hs]
@@ -277,9 +279,9 @@ theorem QInv_step {i : ι} {c : QCfg ι μ} (h : QInv i c) (m : QMove (Change ι
 
 /-- Every subscriber move is a move of its Pull goroutine carrying the same input, or leaves it alone. -/
 theorem subStep_s (s : Sub ι μ) (m : QMove (Change ι μ)) :
-    (∃ pm, (subStep s m).q.s = sstep s.q.s pm ∧ pinputs [pm] = qinputs [m]) ∨
+    (∃ pm, (subStep s m).q.s = sstep s.tr s.q.s pm ∧ pinputs [pm] = qinputs [m]) ∨
     ((subStep s m).q.s = s.q.s ∧ qinputs [m] = []) := by
-  rcases s with ⟨w, q⟩
+  rcases s with ⟨w, T, q⟩
   cases w with
   | none =>
     cases m with
@@ -316,9 +318,13 @@ theorem subStep_received (s : Sub ι μ) (m : QMove (Change ι μ)) :
   · rw [h1, sstep_received, h2]
   · rw [h1, h2, List.append_nil]
 
-theorem subStep_SInv {s0 : View ι μ} {sd : List (Change ι μ)} {s : Sub ι μ} (h : SInv s0 sd s.q.s)
+theorem subStep_tr (s : Sub ι μ) (m : QMove (Change ι μ)) : (subStep s m).tr = s.tr := by
+  rcases s with ⟨w, T, q⟩
+  cases w <;> cases m <;> rfl
+
+theorem subStep_SInv {s0 : View ι μ} {sd : List (Change ι μ)} {s : Sub ι μ} (h : SInv s.tr s0 sd s.q.s)
     (m : QMove (Change ι μ)) (hw : ∀ e, m = .recv e → WFChange (fold s.q.s.p.received s0) e) :
-    SInv s0 sd (subStep s m).q.s := by
+    SInv s.tr s0 sd (subStep s m).q.s := by
   rcases subStep_s s m with ⟨pm, h1, h2⟩ | ⟨h1, _⟩
   · rw [h1]
     refine SInv_step h pm ?_
@@ -345,31 +351,31 @@ theorem subRun_received (s : Sub ι μ) (ms : List (QMove (Change ι μ))) :
     cases m <;> simp [qinputs]
 
 theorem subRun_SInv {s0 : View ι μ} {sd : List (Change ι μ)} {s : Sub ι μ} (ms : List (QMove (Change ι μ)))
-    (h : SInv s0 sd s.q.s) (hw : WFHist (fold s.q.s.p.received s0) (qinputs ms)) :
-    SInv s0 sd (subRun s ms).q.s := by
+    (h : SInv s.tr s0 sd s.q.s) (hw : WFHist (fold s.q.s.p.received s0) (qinputs ms)) :
+    SInv s.tr s0 sd (subRun s ms).q.s := by
   induction ms generalizing s with
   | nil => exact h
   | cons m ms ih =>
-    rw [subRun_cons]
+    rw [subRun_cons, ← subStep_tr s m]
     cases m with
     | recv e =>
       simp only [qinputs, WFHist] at hw
-      refine ih (subStep_SInv h _ (fun e' he' => by cases he'; exact hw.1)) ?_
+      refine ih (by rw [subStep_tr]; exact subStep_SInv h _ (fun e' he' => by cases he'; exact hw.1)) ?_
       rw [subStep_received]
       simp only [qinputs, fold_snoc]
       exact hw.2
     | take =>
-      refine ih (subStep_SInv h _ (fun e' he' => by cases he')) ?_
+      refine ih (by rw [subStep_tr]; exact subStep_SInv h _ (fun e' he' => by cases he')) ?_
       rw [subStep_received]; simpa [qinputs] using hw
     | hand =>
-      refine ih (subStep_SInv h _ (fun e' he' => by cases he')) ?_
+      refine ih (by rw [subStep_tr]; exact subStep_SInv h _ (fun e' he' => by cases he')) ?_
       rw [subStep_received]; simpa [qinputs] using hw
     | deliver =>
-      refine ih (subStep_SInv h _ (fun e' he' => by cases he')) ?_
+      refine ih (by rw [subStep_tr]; exact subStep_SInv h _ (fun e' he' => by cases he')) ?_
       rw [subStep_received]; simpa [qinputs] using hw
 
 theorem subStep_watch (s : Sub ι μ) (m : QMove (Change ι μ)) : (subStep s m).watch = s.watch := by
-  rcases s with ⟨w, q⟩
+  rcases s with ⟨w, T, q⟩
   cases w <;> cases m <;> rfl
 
 theorem subRun_watch (s : Sub ι μ) (ms : List (QMove (Change ι μ))) : (subRun s ms).watch = s.watch := by
@@ -377,39 +383,48 @@ theorem subRun_watch (s : Sub ι μ) (ms : List (QMove (Change ι μ))) : (subRu
   | nil => rfl
   | cons m ms ih => rw [subRun_cons, ih, subStep_watch]
 
+theorem subRun_tr (s : Sub ι μ) (ms : List (QMove (Change ι μ))) : (subRun s ms).tr = s.tr := by
+  induction ms generalizing s with
+  | nil => rfl
+  | cons m ms ih => rw [subRun_cons, ih, subStep_tr]
+
 theorem subRun_QInv {i : ι} {s : Sub ι μ} (hwatch : s.watch = some i) (h : QInv i s.q)
     (ms : List (QMove (Change ι μ))) : QInv i (subRun s ms).q := by
   induction ms generalizing s with
   | nil => exact h
   | cons m ms ih =>
     rw [subRun_cons]
-    have hq : (subStep s m).q = qstep i s.q m := by
-      rcases s with ⟨w, q⟩
+    have hq : (subStep s m).q = qstep s.tr i s.q m := by
+      rcases s with ⟨w, T, q⟩
       simp only at hwatch
       subst hwatch
       rfl
-    exact ih (by rw [subStep_watch]; exact hwatch) (by rw [hq]; exact QInv_step h m)
+    exact ih (by rw [subStep_watch]; exact hwatch) (by rw [hq]; exact QInv_step _ h m)
 
-/-- The consequences of the invariant the property theorems state: the view, well-formedness of what
-was handed on, and the view at quiescence. -/
-theorem SInv.facts {b s0 : View ι μ} {sd : List (Change ι μ)} {c : SCfg ι μ} (h : SInv s0 sd c)
-    (hsd : WFHist b sd) (hs0 : fold sd b = s0) :
-    fold (c.out ++ c.seeds ++ c.p.inHand.toList ++ c.p.st.pending) b
-        = fold c.p.received s0 ∧
+/-- The consequences of the invariant the property theorems state, for a forwarder transform `T` that
+simulates the view map `R` (`Sim`, Include.lean): the view, well-formedness of what was handed on, and the
+view at quiescence.  The seed list `sd` is a well-formed history from the base view `b` folding to the
+mapped view at subscription `R s0`. -/
+theorem SInv.facts {T : Change ι μ → Option (Change ι μ)} {R : View ι μ → View ι μ} (hsim : Sim T R)
+    {b s0 : View ι μ} {sd : List (Change ι μ)} {c : SCfg ι μ} (h : SInv T s0 sd c)
+    (hsd : WFHist b sd) (hs0 : fold sd b = R s0) :
+    fold (c.out ++ c.seeds ++ c.p.inHand.toList ++ c.p.st.pending.filterMap T) b
+        = R (fold c.p.received s0) ∧
     WFHist b c.out ∧
     (c.seeds = [] → c.p.inHand = none → c.p.st.pending = [] →
-        fold c.out b = fold c.p.received s0) := by
+        fold c.out b = R (fold c.p.received s0)) := by
   have hout := h.pinv.out
-  rw [List.filterMap_some] at hout
   have hview := h.pinv.inv.view
   have hwf := h.pinv.inv.wf
   simp only at hview hwf
-  rw [← hout] at hview hwf
-  have htot : fold (c.out ++ c.seeds ++ c.p.inHand.toList ++ c.p.st.pending) b
-      = fold c.p.received s0 := by
-    rw [h.total, fold_append, hs0, hview]
+  obtain ⟨hwf', hview'⟩ := filterMap_sim hsim hwf
+  rw [hview, List.filterMap_append, ← hout] at hview'
+  rw [List.filterMap_append, ← hout] at hwf'
+  have htot : fold (c.out ++ c.seeds ++ c.p.inHand.toList ++ c.p.st.pending.filterMap T) b
+      = R (fold c.p.received s0) := by
+    rw [h.total, fold_append, hs0, hview']
   refine ⟨htot, ?_, ?_⟩
-  · have hd : WFHist s0 c.p.delivered := (WFHist_append.mp (WFHist_append.mp hwf).1).1
+  · have hd : WFHist (R s0) c.p.delivered := (WFHist_append.mp (WFHist_append.mp hwf').1).1
     have hs := h.split
     have hph := h.phase
     rcases c with ⟨seeds, seeded, p⟩
@@ -578,8 +593,8 @@ theorem subRun_append (s : Sub ι μ) (xs ys : List (QMove (Change ι μ))) :
 def SCfg.backlog (c : SCfg ι μ) : Nat :=
   c.seeds.length + c.p.st.pending.length + (if c.p.inHand.isSome then 1 else 0)
 
-theorem backlog_round (c : SCfg ι μ) :
-    (sstep (sstep c .take) .deliver).backlog = c.backlog - 1 := by
+theorem backlog_round (T : Change ι μ → Option (Change ι μ)) (c : SCfg ι μ) :
+    (sstep T (sstep T c .take) .deliver).backlog = c.backlog - 1 := by
   rcases c with ⟨seeds, seeded, ⟨⟨pending⟩, taken, inHand, delivered, received⟩⟩
   cases seeds with
   | cons s rest => cases inHand <;> simp [sstep, SCfg.backlog] <;> omega
@@ -589,7 +604,7 @@ theorem backlog_round (c : SCfg ι μ) :
     | none =>
       cases pending with
       | nil => simp [sstep, pstep, emit, SCfg.backlog]
-      | cons p ps => simp [sstep, pstep, emit, SCfg.backlog]
+      | cons p ps => cases hT : T p <;> simp [sstep, pstep, emit, SCfg.backlog, hT]
 
 omit [DecidableEq ι] in
 theorem backlog_zero {c : SCfg ι μ} (h : c.backlog = 0) :
@@ -602,12 +617,12 @@ theorem subRun_drain_backlog (s : Sub ι μ) (hw : s.watch = none) (n : Nat) :
   induction n generalizing s with
   | zero => simp [drainMoves, subRun_nil]
   | succ n ih =>
-    rcases s with ⟨w, q⟩
+    rcases s with ⟨w, T, q⟩
     simp only at hw
     subst hw
     simp only [drainMoves, subRun_cons]
     rw [ih _ (by rfl)]
-    have : (subStep (subStep (⟨none, q⟩ : Sub ι μ) .take) .deliver).q.s = sstep (sstep q.s .take) .deliver := rfl
+    have : (subStep (subStep (⟨none, T, q⟩ : Sub ι μ) .take) .deliver).q.s = sstep T (sstep T q.s .take) .deliver := rfl
     rw [this, backlog_round]
     omega
 
@@ -651,10 +666,10 @@ theorem qinputs_qdrainMoves {α : Type} (n : Nat) : qinputs (qdrainMoves n : Lis
 
 def QCfg.backlog (c : QCfg ι μ) : Nat := c.s.backlog + (if c.hand2.isSome then 1 else 0)
 
-def qround (i : ι) (c : QCfg ι μ) : QCfg ι μ := qstep i (qstep i (qstep i c .take) .hand) .deliver
+def qround (T : Change ι μ → Option (Change ι μ)) (i : ι) (c : QCfg ι μ) : QCfg ι μ := qstep T i (qstep T i (qstep T i c .take) .hand) .deliver
 
-theorem qstep_ended_mono (i : ι) (c : QCfg ι μ) (m : QMove (Change ι μ)) (h : c.ended = true) :
-    (qstep i c m).ended = true := by
+theorem qstep_ended_mono (T : Change ι μ → Option (Change ι μ)) (i : ι) (c : QCfg ι μ) (m : QMove (Change ι μ)) (h : c.ended = true) :
+    (qstep T i c m).ended = true := by
   cases m with
   | recv e => exact h
   | take => simp [qstep, h]
@@ -665,16 +680,29 @@ theorem qstep_ended_mono (i : ι) (c : QCfg ι μ) (m : QMove (Change ι μ)) (h
     simp only [qstep]
     cases c.hand2 <;> simp [h]
 
-theorem qround_progress (i : ι) (c : QCfg ι μ) (h : c.ended = false) :
-    (qround i c).ended = true ∨ (qround i c).backlog ≤ c.backlog - 1 := by
+theorem qround_progress (T : Change ι μ → Option (Change ι μ)) (i : ι) (c : QCfg ι μ) (h : c.ended = false) :
+    (qround T i c).ended = true ∨ (qround T i c).backlog ≤ c.backlog - 1 := by
   rcases c with ⟨⟨seeds, seeded, ⟨⟨pending⟩, taken, inHand, delivered, received⟩⟩, hand2, ended, out⟩
   simp only at h
   subst h
   cases hand2 with
   | some v =>
     right
-    cases seeds <;> cases inHand <;> cases pending <;>
-      simp [qround, qstep, sstep, pstep, emit, SCfg.offer, QCfg.backlog, SCfg.backlog] <;> omega
+    cases seeds with
+    | cons s rest =>
+      cases inHand <;> cases pending <;>
+        simp [qround, qstep, sstep, pstep, emit, SCfg.offer, QCfg.backlog, SCfg.backlog] <;> omega
+    | nil =>
+      cases inHand with
+      | some d =>
+        cases pending <;>
+          simp [qround, qstep, sstep, pstep, emit, SCfg.offer, QCfg.backlog, SCfg.backlog] <;> omega
+      | none =>
+        cases pending with
+        | nil => simp [qround, qstep, sstep, pstep, emit, SCfg.offer, QCfg.backlog, SCfg.backlog]
+        | cons p ps =>
+          cases hT : T p <;>
+            simp [qround, qstep, sstep, pstep, emit, SCfg.offer, QCfg.backlog, SCfg.backlog, hT] <;> omega
   | none =>
     cases seeds with
     | cons s rest =>
@@ -692,45 +720,50 @@ theorem qround_progress (i : ι) (c : QCfg ι μ) (h : c.ended = false) :
         cases pending with
         | nil => simp [qround, qstep, sstep, pstep, emit, SCfg.offer, QCfg.backlog, SCfg.backlog]
         | cons p ps =>
-          simp only [qround, qstep, sstep, pstep, emit, SCfg.offer, Bool.false_eq_true, if_false]
-          rcases hacc : pullIdAccept i p with ⟨x, e⟩
-          cases x <;> cases e <;> simp [QCfg.backlog, SCfg.backlog] <;> omega
+          cases hT : T p with
+          | none =>
+            right
+            simp [qround, qstep, sstep, pstep, emit, SCfg.offer, QCfg.backlog, SCfg.backlog, hT]
+          | some d =>
+            simp only [qround, qstep, sstep, pstep, emit, SCfg.offer, Bool.false_eq_true, if_false, hT]
+            rcases hacc : pullIdAccept i d with ⟨x, e⟩
+            cases x <;> cases e <;> simp [QCfg.backlog, SCfg.backlog] <;> omega
 
-def qrounds (i : ι) : Nat → QCfg ι μ → QCfg ι μ
+def qrounds (T : Change ι μ → Option (Change ι μ)) (i : ι) : Nat → QCfg ι μ → QCfg ι μ
   | 0, c => c
-  | n + 1, c => qrounds i n (qround i c)
+  | n + 1, c => qrounds T i n (qround T i c)
 
 theorem subRun_qdrain {i : ι} (s : Sub ι μ) (hw : s.watch = some i) (n : Nat) :
-    (subRun s (qdrainMoves n)).q = qrounds i n s.q := by
+    (subRun s (qdrainMoves n)).q = qrounds s.tr i n s.q := by
   induction n generalizing s with
   | zero => rfl
   | succ n ih =>
-    rcases s with ⟨w, q⟩
+    rcases s with ⟨w, T, q⟩
     simp only at hw
     subst hw
     simp only [qdrainMoves, subRun_cons]
     rw [ih _ (by rfl)]
     rfl
 
-theorem qround_ended (i : ι) (c : QCfg ι μ) (h : c.ended = true) : (qround i c).ended = true :=
-  qstep_ended_mono i _ _ (qstep_ended_mono i _ _ (qstep_ended_mono i _ _ h))
+theorem qround_ended (T : Change ι μ → Option (Change ι μ)) (i : ι) (c : QCfg ι μ) (h : c.ended = true) : (qround T i c).ended = true :=
+  qstep_ended_mono T i _ _ (qstep_ended_mono T i _ _ (qstep_ended_mono T i _ _ h))
 
-theorem qrounds_ended (i : ι) (n : Nat) (c : QCfg ι μ) (h : c.ended = true) : (qrounds i n c).ended = true := by
+theorem qrounds_ended (T : Change ι μ → Option (Change ι μ)) (i : ι) (n : Nat) (c : QCfg ι μ) (h : c.ended = true) : (qrounds T i n c).ended = true := by
   induction n generalizing c with
   | zero => exact h
-  | succ n ih => exact ih _ (qround_ended i c h)
+  | succ n ih => exact ih _ (qround_ended T i c h)
 
-theorem qrounds_drain (i : ι) (n : Nat) (c : QCfg ι μ) (h : c.backlog ≤ n) :
-    (qrounds i n c).ended = true ∨ (qrounds i n c).backlog = 0 := by
+theorem qrounds_drain (T : Change ι μ → Option (Change ι μ)) (i : ι) (n : Nat) (c : QCfg ι μ) (h : c.backlog ≤ n) :
+    (qrounds T i n c).ended = true ∨ (qrounds T i n c).backlog = 0 := by
   induction n generalizing c with
   | zero => exact Or.inr (by simp only [qrounds]; omega)
   | succ n ih =>
     simp only [qrounds]
     cases he : c.ended with
-    | true => exact Or.inl (qrounds_ended i n _ (qround_ended i c he))
+    | true => exact Or.inl (qrounds_ended T i n _ (qround_ended T i c he))
     | false =>
-      rcases qround_progress i c he with h1 | h1
-      · exact Or.inl (qrounds_ended i n _ h1)
+      rcases qround_progress T i c he with h1 | h1
+      · exact Or.inl (qrounds_ended T i n _ h1)
       · exact ih _ (by omega)
 
 omit [DecidableEq ι] in
